@@ -232,7 +232,7 @@ def run(ctx):
         'block with each of 13 service behaviours (200, no groups key, empty groups, 404 user, 404 groups, unreachable, groups unreachable, bad JSON, 500/204 user, 403/500 groups) or no/'
         'non-string url; two blocks over the product of behaviours; every ordered arrangement of 7 block states over two blocks '
         '(and over three: all in thorough, those ending in a non-consulted block + a spread in quick); mixed} x one connection '
-        '[valid Create, malformed frame, valid Get] against the real session with a real engine (thorough: plain shapes x all configurations, subject encodings x all configurations of <= 2 blocks; quick: '
+        '[valid Create, malformed frame, valid Get] against the real session with a real engine (thorough: every certificate x every configuration of <= 2 blocks, 6 decisive certificates x all three-block arrangements; quick: '
         'plain shapes x basic configurations in full, arrangements x 5 decisive certificates, subject encodings x 8 decisive '
         'configurations); for every second cell the '
         'auth_settings are written to a server configuration file and read back by the real KmipServerConfig.  Every cell is run; a case is '
@@ -272,7 +272,9 @@ def run(ctx):
             base_c = [c for c in certs if c[1] is None or len(c[1]) == 2]
             lay_c = [c for c in certs if c[1] is not None and len(c[1]) > 2]
             upto2 = [p for p in configs if len(p[1]) <= 2]
-            cells = list(itertools.product(base_c, (True, False), configs)) + list(itertools.product(lay_c, (True, False), upto2))
+            three = [p for p in configs if len(p[1]) > 2]
+            key_c = [c for c in base_c if c[0] in ('absent', '0cn-client', '1cn-client', '1cn-absent', '1cn-both', '2cn-client')]
+            cells = (list(itertools.product(base_c + lay_c, (True, False), upto2)) + list(itertools.product(key_c, (True, False), three)))
         for (clabel, cert), tls, (plabel, plugins) in cells:
             label = '%s|tls=%s|%s' % (clabel, tls, plabel)
             s = stream if n % 7 else destroy + garbage + get          # now and then a destructive first request
